@@ -139,13 +139,10 @@ theorem group_raw_units_measures :
 
 /-- XGRP members of RstGroup whose item, vector or measure disagrees with the writer's key map, with the reason. -/
 def xdeclaredExceptions : List (String × XCls) :=
-  [("group.liquid_production_rate", .wrongVector),     -- item 3 (LiqPrRate) holds GVPR / FVPR, not GLPR
-   ("group.voidage_production_total", .wrongMeasure),  -- GVPT is a reservoir volume; read with geometric_volume (ft³ in FIELD)
-   ("group.oil_production_potential", .wrongMeasure),  -- GOPP is a rate; read with liquid_surface_volume
-   ("group.water_production_potential", .wrongMeasure)]
+  [("group.liquid_production_rate", .wrongVector)]     -- item 3 (LiqPrRate) holds GVPR / FVPR, not GLPR
 
 /-- XGRP: every member of RstGroup reads the item its vector is written to, with the vector's measure — for ordinary
-groups and for FIELD — except the four declared members, which really disagree. -/
+groups and for FIELD — except the declared member, which really disagrees (three measure mismatches were repaired in /repo). -/
 theorem xgrp_members_agree :
     ∀ r ∈ greader, r.arr = "XGRP" →
       (xcls groupKeyToIndex 'G' r = xcls fieldKeyToIndex 'F' r) ∧
